@@ -106,7 +106,7 @@ def requirements(tier):
         "path-evaluated": 12000 if q else 400000,
         "roundtrip-evaluated": 12000 if q else 400000,
         "onehop-evaluated": 1000,
-        "bystander-checked": 1500, "derived-matrix-evaluated": 1500, "matrix-given-as:int-ndarray": 3, "matrix-given-as:int-lists": 3,
+        "bystander-checked": 1500, "derived-matrix-evaluated": 1500, "values-updated-in-place-between-hops": 300, "twin-reading-other-scale": 50, "matrix-given-as:int-ndarray": 3, "matrix-given-as:int-lists": 3,
         "driver:set": 2000,
         "driver:copy": 2000,
         "driver:drag": 1000,
@@ -273,6 +273,7 @@ class History:
         self.drivers = []
         self.tag = ""  # "", "-after-copy", "-after-reattach"
         self.broken = False
+        self.scale = 1.0  # factor applied in place to the values since the start (see inflate)
 
     # -- classification of the hop about to be made ---------------------------------------------------
     def hopclass(self, T, driver):
@@ -304,6 +305,24 @@ class History:
         w.update(sequence=self.seq + [T], drivers=self.drivers + [driver], attached=self.attached, target=T)
         w.update(kw)
         return w
+
+    # -- the values are updated in place between two hops (process noise added, consider-parameter inflation) ---------------
+    def inflate(self, rng):
+        """cov *= k in place, in whatever frame the covariance currently is: from then on every expectation is k times what
+        it was (the maps are linear); a conversion that brings back a matrix remembered from before the update shows."""
+        k = rng.choice([1.5, 2.25, 4.0, 0.25])
+        how = rng.choice(["imul", "slice", "asarray"])
+        c = self.sv.cov if self.attached else self.cov
+        if how == "imul":
+            c *= k
+        elif how == "slice":
+            c[:, :] = np.asarray(c) * k
+        else:
+            np.asarray(c)[:] *= k
+        self.scale *= k
+        self.case.ctx.count("values-updated-in-place-between-hops")
+        self.drivers.append(f"[values x{k} in place ({how})]")
+        self.seq.append(self.cur)
 
     # -- a matrix derived from the covariance by numpy is converted: the covariance itself is a bystander ----------------
     def bystander(self, rng):
@@ -420,7 +439,7 @@ class History:
         self.cur = T
         if T in NAMED:
             self.last_named = T
-        self.visited.append(self.case.exp[T])
+        self.visited.append(self.case.exp[T] * self.scale)
         ok = self.evaluate(T, cls, driver) if check else True
         if driver == "copy" and not self.tag:
             self.tag = "-after-copy"
@@ -441,14 +460,16 @@ class History:
         got = np.array(np.asarray(self.cov), dtype=float)
         sp, sv = cr.block_scales(self.visited)
 
+        exp_T = case.exp[T] * self.scale
+
         def wit():
-            return self.wit(T, driver, got=got.tolist(), expected=case.exp[T].tolist())
+            return self.wit(T, driver, got=got.tolist(), expected=exp_T.tolist(), values_scaled_in_place_by=self.scale)
 
         ctx.count("hop-evaluated")
         ctx.count("hopclass:" + cls)
         label = fname(self.cov.frame)
         ok = ctx.expect(label == T, key("label", cls), self.wit(T, driver, label=label), f"covariance labelled {label}, target {T}")
-        d = cr.scaled_maxdiff(got, case.exp[T], sp, sv)
+        d = cr.scaled_maxdiff(got, exp_T, sp, sv)
         ok &= ctx.resid("value", d, TOL_VALUE, key=key("value", cls), witness=wit() if not d <= TOL_VALUE else None,
                         msg=f"{self.case.A} -> {' -> '.join(self.seq)} ({driver}): covariance differs from M C M^T by {d:.3g} "
                             f"(scaled elementwise; tolerance {TOL_VALUE})")
@@ -466,7 +487,7 @@ class History:
         ok &= ctx.resid("psd:-lambda_min(scaled)", max(0.0, -lam), TOL_VALUE, key=key("psd", cls),
                         witness=self.wit(T, driver, got=got.tolist(), lambda_min=lam), msg=f"not positive semi-definite: {lam!r}")
         ev = np.linalg.eigvalsh(0.5 * (got[:3, :3] + got[:3, :3].T))
-        de = float(np.max(np.abs(ev - case.ev_pos)) / case.ev_pos[-1])
+        de = float(np.max(np.abs(ev - case.ev_pos * self.scale)) / (case.ev_pos[-1] * self.scale))
         ok &= ctx.resid("pos-eig", de, TOL_EIG, key=key("pos-eig", cls), witness=self.wit(T, driver, got_eig=ev.tolist(), expected_eig=case.ev_pos.tolist()),
                         msg=f"position-block eigenvalues changed by {de:.3g} (relative to the largest)")
         return bool(ok)
@@ -480,7 +501,7 @@ class History:
         sp, sv = cr.block_scales(self.visited)
         got = np.array(np.asarray(self.cov), dtype=float)
         if onehop.get(T) is not None:
-            d = cr.scaled_maxdiff(got, onehop[T], sp, sv)
+            d = cr.scaled_maxdiff(got, onehop[T] * self.scale, sp, sv)
             ctx.count("path-evaluated")
             cls = self.hopclass_final("path")
             ctx.resid("path-independence", d, TOL_VALUE, key=cls, witness=self.wit_final(got=got.tolist(), onehop=onehop[T].tolist()),
@@ -493,7 +514,7 @@ class History:
             ctx.violation(self.key("raises", before_tag), self.wit(case.A, "set", exc=repr(exc)), f"conversion back to {case.A} raised {exc!r}")
             return
         back = np.array(np.asarray(self.cov), dtype=float)
-        d = cr.scaled_maxdiff(back, case.C, sp, sv)
+        d = cr.scaled_maxdiff(back, case.C * self.scale, sp, sv)
         ctx.count("roundtrip-evaluated")
         ctx.resid("roundtrip", d, TOL_VALUE, key=self.key("roundtrip", before_tag), witness=self.wit(case.A, "set", got=back.tolist()),
                   msg=f"{case.A} -> {' -> '.join(self.seq)} -> {case.A} does not restore the matrix ({d:.3g} scaled)")
@@ -551,6 +572,21 @@ def run_case(ctx, job, idx, rng, st):
 
     onehop = onehop_table(ctx, case)
 
+    if idx % 3 == 0:
+        # history: another covariance in the same process, attached to a state whose date has the SAME clock reading in
+        # another time scale (another instant, tens of seconds away: the Earth-fixed axes have turned by milliradians)
+        from beyond.dates import Date
+
+        other = rng.choice(["TAI", "TT", "GPS"])
+        d0 = c["date"]
+        c2 = dict(c, date=Date(d0.d, d0.s, scale=other), descr=dict(c["descr"], twin_of_the_reading_in="UTC", scale=other))
+        case2 = Case(ctx, c2)
+        case2.witness["date_scale"] = other
+        ctx.count("twin-reading-other-scale")
+        for T in rng.sample([t for t in TARGETS if t in ROTATING], 2) + [rng.choice(TARGETS)]:
+            h2 = History(case2, attached=rng.random() < 0.5)
+            h2.hop(T, pick_driver(rng, h2, T, allow_reattach=False), rng)
+
     if job["kind"] == "twohop":
         for s1 in TARGETS:
             for s2 in TARGETS:
@@ -582,6 +618,8 @@ def run_case(ctx, job, idx, rng, st):
                 T = rng.choice(TARGETS)
                 if not h.hop(T, pick_driver(rng, h, T), rng):
                     break
+                if rng.random() < 0.15:
+                    h.inflate(rng)
             ctx.count(f"seqlen:{L}")
             h.final_checks(onehop, rng)
 
